@@ -18,16 +18,30 @@ SPEC = {
 NUMERIC = ['bool', 'int32', 'int64', 'uint32', 'uint64', 'sint32', 'sint64', 'float', 'double', 'fixed32', 'fixed64', 'sfixed32', 'sfixed64']
 
 
+def private_helper(cs, callee):
+    """private functions of the protobuf runtime are read through (a helper extracted from a codec function is part of it)"""
+    return callee.vis != 'Public' and callee.key.startswith('prost::')
+
+
+_MF = {}
+
+
 def module_fns(prog, cg, m):
-    out = {}
-    for b in prog.bodies.values():
-        if b.crate == 'pilota' and b.kind == 'Fn' and b.key.startswith('prost::encoding::%s::' % m) and b.key.count('::') == 3:
-            out[b.name] = b
-    return out
+    k = (id(prog), m)
+    if k not in _MF:
+        out = {}
+        for b in prog.bodies.values():
+            if b.crate == 'pilota' and b.kind == 'Fn' and b.key.startswith('prost::encoding::%s::' % m) and b.key.count('::') == 3:
+                out[b.name] = mirlib.inline_calls(b, private_helper)
+        _MF[k] = out
+    return _MF[k]
 
 
 def with_closures(b, cg):
-    return [b] + list(cg.children.get(b.id, []))
+    out = [b] + list(cg.children.get(b.id, []))
+    for fid in getattr(b, 'inlined_from', []):
+        out.extend(cg.children.get(fid, []))
+    return out
 
 
 def wire_types(b, cg, callee, argi):
